@@ -958,8 +958,11 @@ func (g *gen) randStr(n int) string {
 func (g *gen) genStr(t *Type) string {
 	st := g.st
 	if len(st.strPool) == 0 {
+		// single characters of 2, 3 and 4 bytes: byte length and character count differ (the
+		// dictionary admission rule is about bytes); "\xff\xfe" is not valid UTF-8
 		st.strPool = []string{"", "a", "k", "ab", "xy", "svc", "http.method", "host.name", "GET",
-			"https://opentelemetry.io/schemas/1.21.0", g.randStr(40), g.randStr(300)}
+			"https://opentelemetry.io/schemas/1.21.0", g.randStr(40), g.randStr(300),
+			"\u00b5", "\u20ac", "\U0001F600", "\u00b5s", "\xff\xfe"}
 	}
 	poolN, poolD := 7, 10
 	if st.Cfg.DictHeavy {
